@@ -364,10 +364,24 @@ pub fn gen_ops(rng: &mut Rng, profile: Profile, n: usize, len: usize) -> Vec<Op>
                 else if r < 88 { let t = g.tick(false); ops.push(Op::ResetReconnect(i, t)); }
                 else if r < 93 { let t = g.tick(false); ops.push(Op::Reg3(i, t)); }
                 else if r < 96 { let t = g.now; ops.push(Op::SetConn(i, g.rng.chance(3, 4), if g.rng.chance(3, 4) { Some(t) } else { None })); }
-                else {
+                else if r < 98 {
                     // drive the window down to the fast-recovery region quickly
                     let w = *g.rng.pick(&[2000i64, 2001, 2100, 2099, 1000, 1100, 11_971, 12_000, 59_999]);
                     ops.push(Op::SetWindow(i, w));
+                }
+                else {
+                    // fast-recovery flag carried up to the ceiling (classic ACK growth and the global +1 never
+                    // clear it; a mode switch then runs time-based recovery on it): NAK at the entry window,
+                    // window placed within one recovery step of a boundary, recovery ticks after the waits
+                    ops.push(Op::SetWindow(i, *g.rng.pick(&[2000i64, 2100, 1500])));
+                    let t = g.tick(false); ops.push(Op::CcNak(i, t));
+                    let w = *g.rng.pick(&[59_999i64, 59_990, 59_941, 59_940, 59_881, 59_880, 59_879, 60_000, 11_999, 11_941, 11_880]);
+                    ops.push(Op::SetWindow(i, w));
+                    for _ in 0..g.rng.range(1, 4) {
+                        g.now += *g.rng.pick(&[301u64, 501, 1001, 2001, 5001, 7001, 10_001]);
+                        let t = g.now; let v = g.rng.chance(1, 4);
+                        ops.push(Op::Recovery(i, t, v));
+                    }
                 }
             }
             Profile::C02 | Profile::C10 => {
